@@ -51,6 +51,15 @@ CLAIMS = {
  "C08": ("other", "DESIGN.md §3 C08", "use-def confinement of the secret buffer, resolved callee identity, exhaustive path evaluation over the 256 hash values",
    "The one buffer is filled whole by crypto/rand.Read with the error checked, used for nothing but that fill and the whole-buffer unpadded StdEncoding encode, sized 20/32/64 for the three hashes and refused with an error for every other of the 256 values (all paths enumerated), with no state kept between calls.",
    "Quality of the OS random source is not decided. Trusted: crypto/rand.Read fills fully or fails."),
+ "C10": ("other", "DESIGN.md §3 C10", "enumerated panic/hang obligations: compiler prove-pass residual list + interval/guard analysis with lifted preconditions, nilness by branch conditions, who-puts typestate for pool assertions, loop-bound recognition, call-graph acyclicity",
+   "Every bounds check the Go compiler cannot eliminate, every non-constant divisor, every non-comma-ok assertion, every dereference of a pointer parameter, every explicit panic, every checked standard-library precondition and every loop of the functions reachable from the exported API (minus the documented Must* helpers) is an obligation discharged by interval analysis with dominating guards, preconditions lifted to all call sites and the Suite contract proved by decision tables. Sound for the enumerated panic classes under the stated assumptions; not a proof about the runtime.",
+   "Trusted: the compiler's bounds-check elimination, stdlib documented preconditions. Excluded per the property: nil/user Suite values, LeftPadHex width outside 0..2^20, replaced TimeCounterFunc. OOM / stack exhaustion not decided."),
+ "C16": ("other", "DESIGN.md §3 C16", "writer/reader table agreement by origin terms, taint-free structural escaping rule, interval analysis of numeric conversions",
+   "No escaped text is stored in decoded URL fields and the query is url.Values.Encode(); every narrowing/sign-changing conversion reachable from the parser has an operand interval within the target type (from the ParseUint bit size or a gate) on 64- and 32-bit configurations; keys, hash names, scheme, type literals, label separator/prefix and defaults agree between generator and parser; each field maps to its own key / label half.",
+   "Round-trip over all Unicode strings rests on net/url being self-inverse (trusted)."),
+ "C17": ("other", "DESIGN.md §3 C17", "origin-term idiom matching, big-endian sweep recognition (induction + byte-lane pattern), sibling agreement, path enumeration",
+   "Constant arguments of the parsers, the three 8-byte writers as one descending complete big-endian sweep that agree with each other, right-padding of the decimal question to 256 hex digits, left-padding of timestamps to 16, both paths of LeftPadHex, and the position-wise mapping and error propagation of the five hex fields.",
+   "Numeric identity beyond the enumerated idioms and RFC end-to-end equality (C05) are not decided."),
 }
 
 PENDING_REASON = "not claimed at this commit: the rule set planned in DESIGN.md §3 is not implemented yet (no check is registered, so nothing is asserted)"
